@@ -1,153 +1,535 @@
-(* C08 — a count-driven reader of the token stream of a VOLU line (the way a TRIPOLI-4
-   reader consumes it: each keyword is followed by a count and then by exactly that many
-   items), and the round trip with the model printer's token stream. *)
+(* C08 — round trip: the reader of Parse.v applied to the text the model printer emits
+   gives back the abstract file, for every file whose word fields are words (no blank, no
+   newline; no '/' in the code part of SURF lines) and whose declared counts are right. *)
 From Coq Require Import List NArith ZArith Bool String Ascii Lia.
-From T4V Require Import Base.Str C08.Model C08.Spec.
+From T4V Require Import Base.Str C08.Model C08.Spec C08.Parse C08.ProofsChars.
 Import ListNotations.
 Open Scope string_scope.
+Open Scope list_scope.
 
-(* exactly n surface numbers *)
-Fixpoint take_ids (n : nat) (toks : list tok) : option (list Z * list tok) :=
-  match n with
-  | O => Some ([], toks)
-  | S m =>
-      match toks with
-      | TZ z :: r => match take_ids m r with Some (l, r') => Some (z :: l, r') | None => None end
-      | _ => None
-      end
-  end.
+(* ---- what the printer is given -------------------------------------------------------- *)
+Definition tok2 (s : string) : Prop := free " " s /\ free nlc s.
+Definition tok3 (s : string) : Prop := free " " s /\ free nlc s /\ free "/" s.
+Definition cmt_ok (c : option string) : Prop := match c with None => True | Some c => free nlc c end.
 
-(* exactly n operands: a number, or the word None the unrepaired code could print *)
-Fixpoint take_args (n : nat) (toks : list tok) : option (list (option Z) * list tok) :=
-  match n with
-  | O => Some ([], toks)
-  | S m =>
-      match toks with
-      | TZ z :: r => match take_args m r with Some (l, r') => Some (Some z :: l, r') | None => None end
-      | TNone :: r => match take_args m r with Some (l, r') => Some (None :: l, r') | None => None end
-      | _ => None
-      end
-  end.
+Record printable_surf (s : surf_line) : Prop := mk_ps {
+  ps_type : tok3 (sl_type s);
+  ps_not_marker : String.eqb (sl_type s) "TRANSFORM" = false;
+  ps_params : Forall tok3 (sl_params s);
+  ps_transform : match sl_transform s with None => True | Some t => Forall tok2 t end;
+  ps_comment : cmt_ok (sl_comment s) }.
 
-Definition read_counted (kw : string) (toks : list tok) : option (option (N * list Z) * list tok) :=
-  match toks with
-  | TW k :: rest =>
-      if String.eqb k kw then
-        match rest with
-        | TN n :: rest' =>
-            match take_ids (N.to_nat n) rest' with
-            | Some (l, r) => Some (Some (n, l), r)
-            | None => None
-            end
-        | _ => None
-        end
-      else Some (None, toks)
-  | _ => Some (None, toks)
-  end.
+Record printable_volu (v : volu_line) : Prop := mk_pv {
+  pv_plus : declared_ok (vl_plus v);
+  pv_minus : declared_ok (vl_minus v);
+  pv_op : match vl_op v with None => True | Some (_, n, args) => n = N.of_nat (List.length args) end;
+  pv_comment : cmt_ok (vl_comment v) }.
 
-Definition read_op (toks : list tok) : option (option (opkind * N * list (option Z)) * list tok) :=
-  match toks with
-  | TW k :: rest =>
-      let kind := if String.eqb k "UNION" then Some OUnion
-                  else if String.eqb k "INTE" then Some OInte else None in
-      match kind with
-      | None => Some (None, toks)
-      | Some op =>
-          match rest with
-          | TN n :: rest' =>
-              match take_args (N.to_nat n) rest' with
-              | Some (l, r) => Some (Some (op, n, l), r)
-              | None => None
-              end
-          | _ => None
-          end
-      end
-  | _ => Some (None, toks)
-  end.
+Record printable_comp (b : comp_block) : Prop := mk_pc {
+  pc_type : tok2 (cb_type b);
+  pc_name : tok2 (cb_name b);
+  pc_density : match cb_density b with None => True | Some (d, _) => tok2 d end;
+  pc_items : Forall (fun p => tok2 (fst p) /\ tok2 (snd p)) (cb_items b);
+  pc_count : cb_count b = N.of_nat (List.length (cb_items b)) }.
 
-(* the body of a VOLU line between the number and ENDV: (plus, minus, operator, FICTIVE) *)
-Definition read_volu (toks : list tok)
-  : option (option (N * list Z) * option (N * list Z) * option (opkind * N * list (option Z)) * bool) :=
-  match toks with
-  | TW "EQUA" :: r0 =>
-      match read_counted "PLUS" r0 with
-      | None => None
-      | Some (p, r1) =>
-          match read_counted "MINUS" r1 with
-          | None => None
-          | Some (m, r2) =>
-              match read_op r2 with
-              | None => None
-              | Some (o, r3) =>
-                  match r3 with
-                  | [] => Some (p, m, o, false)
-                  | [TW "FICTIVE"] => Some (p, m, o, true)
-                  | _ => None
-                  end
-              end
-          end
-      end
-  | _ => None
-  end.
+Definition printable_gc (g : gc_line) : Prop :=
+  tok2 (gc_name g) /\ gc_count g = N.of_nat (List.length (gc_vols g)).
 
-Lemma take_ids_app l rest : take_ids (List.length l) (map TZ l ++ rest) = Some (l, rest).
-Proof. induction l as [|z r IH]; simpl; [reflexivity|]. rewrite IH. reflexivity. Qed.
+Record printable (f : file) : Prop := mk_printable {
+  pr_surfs : Forall printable_surf (f_surfs f);
+  pr_vols : Forall printable_volu (f_vols f);
+  pr_comps : match f_comps f with
+             | None => True
+             | Some c => fst c = N.of_nat (List.length (snd c)) /\ Forall printable_comp (snd c)
+             end;
+  pr_gc : match f_geomcomp f with None => True | Some g => Forall printable_gc g end;
+  pr_bc : match f_bc f with
+          | None => True
+          | Some b => fst b = N.of_nat (List.length (snd b)) /\ Forall (fun p => tok2 (fst p)) (snd b)
+          end }.
 
-Lemma take_args_app l rest : take_args (List.length l) (map opt_tok l ++ rest) = Some (l, rest).
+(* ---- generic ---------------------------------------------------------------------------- *)
+Lemma words_join ws : ws <> [] -> Forall (free " ") ws -> words (join " " ws) = ws.
+Proof. intros. unfold words. apply (split_join " "); assumption. Qed.
+
+Lemma append_assoc a b c : (a +++ b) +++ c = a +++ (b +++ c).
+Proof. induction a as [|x a IH]; simpl; [reflexivity|]. rewrite IH. reflexivity. Qed.
+
+(* freeness of the generated words, for a separator character c *)
+Section WordsFree.
+Variable c : ascii.
+Hypothesis c_digit : is_digit c = false.
+Hypothesis c_minus : Ascii.eqb c "-" = false.
+Hypothesis c_kw : forall k, In k ["SURF"; "TRANSFORM"; "MATRIX"; "VOLU"; "EQUA"; "PLUS"; "MINUS"; "UNION"; "INTE";
+                                   "FICTIVE"; "ENDV"; "None"; "300"; "NB_ATOM"; ""; "ALL_COMPLETE"] -> free c k.
+
+Lemma counted_words_free kw x : free c kw -> Forall (free c) (counted_words kw x).
 Proof.
-  induction l as [|[z|] r IH]; simpl; [reflexivity| |]; rewrite IH; reflexivity.
+  intros Hk. destruct x as [[n l]|]; simpl; [|constructor].
+  constructor; [assumption|]. constructor; [apply dec_free; assumption|].
+  apply Forall_forall. intros w Hw. apply in_map_iff in Hw. destruct Hw as [z [<- _]].
+  apply dec_Z_free; assumption.
 Qed.
 
-Lemma read_counted_tokens kw x rest :
+Lemma volu_words_free v : Forall (free c) (volu_words v).
+Proof.
+  unfold volu_words. repeat (apply Forall_app; split).
+  - constructor; [apply c_kw; simpl; tauto|constructor].
+  - apply counted_words_free. apply c_kw. simpl. tauto.
+  - apply counted_words_free. apply c_kw. simpl. tauto.
+  - destruct (vl_op v) as [[[op n] args]|]; [|constructor].
+    constructor; [destruct op; apply c_kw; simpl; tauto|].
+    constructor; [apply dec_free; assumption|].
+    apply Forall_forall. intros w Hw. apply in_map_iff in Hw. destruct Hw as [[z|] [<- _]]; simpl.
+    + apply dec_Z_free; assumption.
+    + apply c_kw. simpl. tauto.
+  - destruct (vl_fictive v); [constructor; [apply c_kw; simpl; tauto|constructor]|constructor].
+Qed.
+
+Lemma volu_line_words_free v : Forall (free c) (["VOLU"; dec_Z (vl_id v)] ++ volu_words v ++ ["ENDV"]).
+Proof.
+  constructor; [apply c_kw; simpl; tauto|]. constructor; [apply dec_Z_free; assumption|].
+  apply Forall_app. split; [apply volu_words_free|]. constructor; [apply c_kw; simpl; tauto|constructor].
+Qed.
+
+Lemma surf_words_free s :
+  free c (sl_type s) -> Forall (free c) (sl_params s) -> Forall (free c) (surf_words s).
+Proof.
+  intros Ht Hp. unfold surf_words.
+  constructor; [apply c_kw; simpl; tauto|]. constructor; [apply dec_Z_free; assumption|].
+  apply Forall_app. split.
+  - destruct (sl_transform s); [|constructor].
+    constructor; [apply c_kw; simpl; tauto|]. constructor; [apply dec_Z_free; assumption|constructor].
+  - constructor; assumption.
+Qed.
+
+Lemma gc_words_free g : free c (gc_name g) -> Forall (free c) (gc_words g).
+Proof.
+  intros Hn. unfold gc_words. constructor; [assumption|]. constructor; [apply dec_free; assumption|].
+  destruct (gc_vols g) as [|z l] eqn:E.
+  - constructor; [apply c_kw; simpl; tauto|constructor].
+  - rewrite <- E. apply Forall_forall. intros w Hw. apply in_map_iff in Hw. destruct Hw as [z' [<- _]].
+    apply dec_Z_free; assumption.
+Qed.
+End WordsFree.
+
+Lemma blank_facts :
+  is_digit " " = false /\ Ascii.eqb " " "-" = false /\
+  forall k, In k ["SURF"; "TRANSFORM"; "MATRIX"; "VOLU"; "EQUA"; "PLUS"; "MINUS"; "UNION"; "INTE";
+                  "FICTIVE"; "ENDV"; "None"; "300"; "NB_ATOM"; ""; "ALL_COMPLETE"] -> free " " k.
+Proof.
+  split; [reflexivity|]. split; [reflexivity|]. intros k Hk. simpl in Hk.
+  repeat (destruct Hk as [<-|Hk]; [reflexivity|]). destruct Hk.
+Qed.
+
+Lemma nl_facts :
+  is_digit nlc = false /\ Ascii.eqb nlc "-" = false /\
+  forall k, In k ["SURF"; "TRANSFORM"; "MATRIX"; "VOLU"; "EQUA"; "PLUS"; "MINUS"; "UNION"; "INTE";
+                  "FICTIVE"; "ENDV"; "None"; "300"; "NB_ATOM"; ""; "ALL_COMPLETE"] -> free nlc k.
+Proof.
+  split; [reflexivity|]. split; [reflexivity|]. intros k Hk. simpl in Hk.
+  repeat (destruct Hk as [<-|Hk]; [reflexivity|]). destruct Hk.
+Qed.
+
+Lemma slash_facts :
+  is_digit "/" = false /\ Ascii.eqb "/" "-" = false /\
+  forall k, In k ["SURF"; "TRANSFORM"; "MATRIX"; "VOLU"; "EQUA"; "PLUS"; "MINUS"; "UNION"; "INTE";
+                  "FICTIVE"; "ENDV"; "None"; "300"; "NB_ATOM"; ""; "ALL_COMPLETE"] -> free "/" k.
+Proof.
+  split; [reflexivity|]. split; [reflexivity|]. intros k Hk. simpl in Hk.
+  repeat (destruct Hk as [<-|Hk]; [reflexivity|]). destruct Hk.
+Qed.
+
+Ltac facts F := destruct F as [?Fd [?Fm ?Fk]].
+
+(* a line made of a code part (words joined by blanks) and a comment *)
+Lemma code_line_read ws cmt :
+  ws <> [] -> Forall (free " ") ws -> Forall (free "/") ws ->
+  split_comment (join " " ws +++ comment_str cmt) = (join " " ws, cmt) /\ words (join " " ws) = ws.
+Proof.
+  intros Hne Hb Hs. split; [|apply words_join; assumption].
+  apply split_comment_spec. apply (free_join "/" " "); [reflexivity|assumption].
+Qed.
+
+Lemma code_line_free ws cmt :
+  Forall (free nlc) ws -> cmt_ok cmt -> free nlc (join " " ws +++ comment_str cmt).
+Proof.
+  intros Hw Hc. apply free_app; [apply (free_join nlc " "); [reflexivity|assumption]|].
+  destruct cmt as [c|]; simpl; [|reflexivity]. unfold free. simpl. exact Hc.
+Qed.
+
+(* ---- VOLU --------------------------------------------------------------------------------- *)
+Lemma read_counted_words kw x rest :
   declared_ok x ->
-  (forall k r, rest = TW k :: r -> String.eqb k kw = false) ->
-  read_counted kw (counted_tokens kw x ++ rest) = Some (x, rest).
+  (forall k r, rest = k :: r -> String.eqb k kw = false) ->
+  read_counted kw (counted_words kw x ++ rest) = Some (x, rest).
 Proof.
   intros Hd Hrest. destruct x as [[n l]|]; simpl.
-  - rewrite String.eqb_refl. simpl in Hd. subst n. rewrite Nat2N.id, take_ids_app. reflexivity.
-  - destruct rest as [|[k| | |] r]; try reflexivity.
-    unfold read_counted. rewrite (Hrest k r eq_refl). reflexivity.
+  - rewrite String.eqb_refl, parse_N_dec. simpl in Hd. subst n. rewrite Nat2N.id.
+    rewrite (take_with_app parse_Z dec_Z l rest parse_Z_dec). reflexivity.
+  - destruct rest as [|k r]; [reflexivity|]. unfold read_counted. rewrite (Hrest k r eq_refl). reflexivity.
 Qed.
 
-(* every line the model printer emits is read back by the count-driven reader: the declared
-   counts delimit the lists exactly (with a wrong count the reader stops in the wrong place) *)
-Theorem volu_tokens_roundtrip (v : volu_line) :
-  declared_ok (vl_plus v) -> declared_ok (vl_minus v) ->
-  match vl_op v with None => True | Some (_, n, args) => n = N.of_nat (List.length args) end ->
-  read_volu (volu_tokens v) = Some (vl_plus v, vl_minus v, vl_op v, vl_fictive v).
+Lemma read_volu_body_words v :
+  printable_volu v ->
+  read_volu_body (volu_words v ++ ["ENDV"]) = Some (vl_plus v, vl_minus v, vl_op v, vl_fictive v).
 Proof.
-  intros Hp Hm Ho. unfold volu_tokens, read_volu. cbn [app].
-  rewrite read_counted_tokens; [|assumption|].
+  intros [Hp Hm Ho _]. unfold volu_words, read_volu_body. cbn [app]. rewrite String.eqb_refl.
+  rewrite <- !app_assoc.
+  rewrite read_counted_words; [|assumption|].
   2:{ intros k r Hr. destruct (vl_minus v) as [[n l]|]; simpl in Hr.
       - inversion Hr; subst. reflexivity.
       - destruct (vl_op v) as [[[[|] n] args]|]; simpl in Hr.
         + inversion Hr; subst. reflexivity.
         + inversion Hr; subst. reflexivity.
-        + destruct (vl_fictive v); simpl in Hr; [inversion Hr; subst; reflexivity|discriminate]. }
-  rewrite read_counted_tokens; [|assumption|].
+        + destruct (vl_fictive v); simpl in Hr; inversion Hr; subst; reflexivity. }
+  rewrite read_counted_words; [|assumption|].
   2:{ intros k r Hr. destruct (vl_op v) as [[[[|] n] args]|]; simpl in Hr.
       - inversion Hr; subst. reflexivity.
       - inversion Hr; subst. reflexivity.
-      - destruct (vl_fictive v); simpl in Hr; [inversion Hr; subst; reflexivity|discriminate]. }
+      - destruct (vl_fictive v); simpl in Hr; inversion Hr; subst; reflexivity. }
   destruct (vl_op v) as [[[op n] args]|].
-  - subst n. destruct op; simpl; rewrite Nat2N.id, take_args_app; destruct (vl_fictive v); reflexivity.
+  - subst n. destruct op; simpl; rewrite parse_N_dec, Nat2N.id;
+      rewrite (take_with_app parse_arg opt_str args _ parse_arg_opt_str);
+      destruct (vl_fictive v); reflexivity.
   - simpl. destruct (vl_fictive v); reflexivity.
 Qed.
 
-(* in particular every volume of every table: volu_line_of always declares the right counts *)
-Corollary volu_line_of_roundtrip k v :
-  let l := volu_line_of k v in
-  read_volu (volu_tokens l) = Some (vl_plus l, vl_minus l, vl_op l, vl_fictive l).
+Lemma read_volu_line_print v : printable_volu v -> read_volu_line (print_volu v) = Some v.
 Proof.
-  cbv zeta. apply volu_tokens_roundtrip.
-  - unfold volu_line_of, counted. simpl. destruct (mkset (v_plus v)); simpl; [exact I|reflexivity].
-  - unfold volu_line_of, counted. simpl. destruct (mkset (v_minus v)); simpl; [exact I|reflexivity].
-  - unfold volu_line_of. simpl. destruct (v_ops v) as [[op args]|]; [reflexivity|exact I].
+  intros Hv. unfold read_volu_line, print_volu.
+  facts blank_facts. facts slash_facts.
+  destruct (code_line_read (["VOLU"; dec_Z (vl_id v)] ++ volu_words v ++ ["ENDV"]) (vl_comment v)) as [E1 E2].
+  - discriminate.
+  - apply volu_line_words_free; assumption.
+  - apply volu_line_words_free; assumption.
+  - rewrite E1, E2. cbn [app]. rewrite String.eqb_refl, parse_Z_dec, read_volu_body_words by assumption.
+    destruct v; reflexivity.
 Qed.
 
-(* and a wrong count is detected: one item more than declared leaves a number where a
-   keyword (or the end) is expected *)
-Example wrong_count_rejected :
-  read_volu [TW "EQUA"; TW "MINUS"; TN 0; TZ 7] = None /\
-  read_volu [TW "EQUA"; TW "PLUS"; TN 2; TZ 7; TW "FICTIVE"] = None.
-Proof. split; reflexivity. Qed.
+Lemma print_volu_nonempty v : String.eqb (print_volu v) "" = false.
+Proof. reflexivity. Qed.
+
+Lemma parse_vols_print vl rest :
+  Forall printable_volu vl -> parse_vols (map print_volu vl ++ "" :: rest) = Some (vl, rest).
+Proof.
+  induction vl as [|v r IH]; intros H; [reflexivity|].
+  inversion H as [|? ? Hv Hr]; subst. cbn [map app parse_vols].
+  rewrite print_volu_nonempty, read_volu_line_print by assumption. rewrite IH by assumption. reflexivity.
+Qed.
+
+(* ---- SURF --------------------------------------------------------------------------------- *)
+Lemma tok3_lists s : printable_surf s ->
+  Forall (free " ") (surf_words s) /\ Forall (free "/") (surf_words s) /\ Forall (free nlc) (surf_words s).
+Proof.
+  intros [[T1 [T2 T3]] _ Hp _ _].
+  facts blank_facts. facts slash_facts. facts nl_facts.
+  repeat split; apply surf_words_free; try assumption;
+    apply Forall_forall; intros w Hw; rewrite Forall_forall in Hp; destruct (Hp w Hw) as [A [B C]]; assumption.
+Qed.
+
+Lemma read_surf_line_print s : printable_surf s ->
+  read_surf_line (join " " (surf_words s) +++ comment_str (sl_comment s)) =
+  Some (sl_id s, match sl_transform s with None => None | Some _ => Some (sl_id s) end,
+        sl_type s, sl_params s, sl_comment s).
+Proof.
+  intros Hs. destruct (tok3_lists s Hs) as [Hb [Hsl _]].
+  unfold read_surf_line.
+  destruct (code_line_read (surf_words s) (sl_comment s)) as [E1 E2]; try assumption.
+  { unfold surf_words. discriminate. }
+  rewrite E1, E2. unfold surf_words. cbn [app]. rewrite String.eqb_refl, parse_Z_dec.
+  destruct (sl_transform s) as [t|]; cbn [app].
+  - rewrite String.eqb_refl, parse_Z_dec. reflexivity.
+  - rewrite (ps_not_marker s Hs). reflexivity.
+Qed.
+
+Lemma words_head w rest : free " " w -> words (w +++ String " " rest) = w :: words rest.
+Proof. intros. unfold words. apply split_on_app. assumption. Qed.
+
+(* a SURF line is not a TRANSFORM line *)
+Lemma surf_line_not_transform s :
+  read_transform_line (join " " (surf_words s) +++ comment_str (sl_comment s)) = None.
+Proof.
+  unfold read_transform_line, surf_words. cbn [app]. rewrite join_cons2.
+  rewrite append_assoc. change (" " +++ ?x) with (String " " x).
+  change (" " +++ join " " (dec_Z (sl_id s)
+     :: (match sl_transform s with Some _ => ["TRANSFORM"; dec_Z (sl_id s)] | None => [] end) ++
+        sl_type s :: sl_params s)) with
+    (String " " (join " " (dec_Z (sl_id s)
+     :: (match sl_transform s with Some _ => ["TRANSFORM"; dec_Z (sl_id s)] | None => [] end) ++
+        sl_type s :: sl_params s))).
+  simpl String.append at 1.
+  match goal with |- context [words (String "S" (String "U" (String "R" (String "F" (String " " ?r)))))] =>
+    change (String "S" (String "U" (String "R" (String "F" (String " " r))))) with ("SURF" +++ String " " r)
+  end.
+  rewrite words_head by reflexivity.
+  match goal with |- context [words ?x] => destruct (words x) as [|k [|m e]] end; reflexivity.
+Qed.
+
+Lemma transform_line_read id t :
+  Forall tok2 t ->
+  read_transform_line (join " " ("TRANSFORM" :: dec_Z id :: "MATRIX" :: t)) = Some (id, t).
+Proof.
+  intros Ht. unfold read_transform_line. facts blank_facts.
+  rewrite words_join.
+  - rewrite !String.eqb_refl, parse_Z_dec. reflexivity.
+  - discriminate.
+  - constructor; [reflexivity|]. constructor; [apply dec_Z_free; assumption|]. constructor; [reflexivity|].
+    apply Forall_forall. intros w Hw. rewrite Forall_forall in Ht. apply (Ht w Hw).
+Qed.
+
+Lemma parse_surfs_print sl rest :
+  Forall printable_surf sl -> parse_surfs (flat_map print_surf sl ++ "" :: rest) = Some (sl, rest).
+Proof.
+  induction sl as [|s r IH]; intros H; [reflexivity|].
+  inversion H as [|? ? Hs Hr]; subst. specialize (IH Hr).
+  cbn [flat_map]. unfold print_surf at 1. destruct (sl_transform s) as [t|] eqn:Et.
+  - rewrite <- ?app_assoc. cbn [app parse_surfs].
+    assert (Hne : String.eqb (join " " ("TRANSFORM" :: dec_Z (sl_id s) :: "MATRIX" :: t)) "" = false).
+    { rewrite join_cons2. reflexivity. }
+    rewrite Hne. rewrite transform_line_read.
+    2:{ pose proof (ps_transform s Hs) as P. rewrite Et in P. exact P. }
+    rewrite (read_surf_line_print s Hs), Et. rewrite !Z.eqb_refl. cbn [andb]. rewrite IH.
+    destruct s; simpl in *; subst; reflexivity.
+  - rewrite <- ?app_assoc. cbn [app parse_surfs].
+    assert (Hne : String.eqb (join " " (surf_words s) +++ comment_str (sl_comment s)) "" = false).
+    { unfold surf_words. cbn [app]. rewrite join_cons2. reflexivity. }
+    rewrite Hne, surf_line_not_transform, (read_surf_line_print s Hs), Et, IH.
+    destruct s; simpl in *; subst; reflexivity.
+Qed.
+
+(* ---- COMPOSITION ---------------------------------------------------------------------------- *)
+Lemma read_item_print p : tok2 (fst p) /\ tok2 (snd p) ->
+  read_item (join " " [""; ""; fst p; snd p]) = Some p.
+Proof.
+  intros [[A _] [B _]]. unfold read_item. rewrite words_join.
+  - destruct p; reflexivity.
+  - discriminate.
+  - repeat constructor; assumption.
+Qed.
+
+Lemma read_comp_head_print b : printable_comp b ->
+  read_comp_head (join " " (comp_head_words b)) = Some (cb_type b, cb_name b, cb_density b, cb_count b).
+Proof.
+  intros [[T _] [Nm _] Hd _ _]. unfold read_comp_head, comp_head_words. facts blank_facts.
+  destruct (cb_density b) as [[d nb]|].
+  - destruct Hd as [Hd _]. rewrite words_join.
+    + rewrite String.eqb_refl, parse_N_dec. destruct nb; reflexivity.
+    + discriminate.
+    + repeat constructor; try assumption; try (apply dec_free; assumption); destruct nb; reflexivity.
+  - rewrite words_join.
+    + rewrite String.eqb_refl, parse_N_dec. reflexivity.
+    + discriminate.
+    + repeat constructor; try assumption; apply dec_free; assumption.
+Qed.
+
+Lemma read_comp_print b rest : printable_comp b -> read_comp (print_comp b ++ rest) = Some (b, rest).
+Proof.
+  intros Hb. unfold read_comp, print_comp. cbn [app]. rewrite read_comp_head_print by assumption.
+  pose proof (pc_count b Hb) as Hc. pose proof (pc_items b Hb) as Hi.
+  destruct (cb_items b) as [|it its] eqn:Ei.
+  - simpl in Hc. rewrite Hc. cbn [N.eqb app]. simpl.
+    destruct b; simpl in *; subst; reflexivity.
+  - rewrite <- Ei in *. assert (Hn : (cb_count b =? 0)%N = false).
+    { rewrite Hc, Ei. simpl. reflexivity. }
+    rewrite Hn, Hc, Nat2N.id.
+    assert (Ht : take_with read_item (List.length (cb_items b))
+                   (map (fun p => join " " [""; ""; fst p; snd p]) (cb_items b) ++ rest) = Some (cb_items b, rest)).
+    { clear - Hi. induction (cb_items b) as [|p r IH]; [reflexivity|].
+      inversion Hi as [|? ? Hp Hr]; subst. cbn [List.length map app take_with].
+      rewrite read_item_print by assumption. rewrite IH by assumption. reflexivity. }
+    rewrite Ei in *. cbn [app] in *. rewrite <- Ei in Ht.
+    match goal with |- context [take_with read_item ?n ?l] =>
+      replace (take_with read_item n l) with (Some (cb_items b, rest)) end.
+    + destruct b; simpl in *; subst; reflexivity.
+    + rewrite <- Ht. rewrite Ei. reflexivity.
+Qed.
+
+Lemma read_comps_print bs rest :
+  Forall printable_comp bs -> read_comps (List.length bs) (flat_map print_comp bs ++ rest) = Some (bs, rest).
+Proof.
+  induction bs as [|b r IH]; intros H; [reflexivity|].
+  inversion H as [|? ? Hb Hr]; subst. cbn [List.length flat_map read_comps].
+  rewrite <- app_assoc, read_comp_print by assumption. rewrite IH by assumption. reflexivity.
+Qed.
+
+Lemma parse_comps_print c rest :
+  fst c = N.of_nat (List.length (snd c)) -> Forall printable_comp (snd c) ->
+  parse_comps (print_comps c ++ rest) = Some (Some c, rest).
+Proof.
+  intros Hc Hb. unfold parse_comps, print_comps. cbn [app starts_block]. simpl String.eqb. cbn [andb].
+  rewrite parse_N_dec, Hc, Nat2N.id, <- app_assoc, read_comps_print by assumption.
+  cbn [app]. simpl String.eqb. cbn [andb]. destruct c; simpl in *; subst; reflexivity.
+Qed.
+
+(* ---- GEOMCOMP ---------------------------------------------------------------------------------- *)
+Lemma read_gc_print g : printable_gc g -> read_gc (print_gc g) = Some g.
+Proof.
+  intros [[Hn _] Hc]. unfold read_gc, print_gc. facts blank_facts.
+  rewrite words_join; [|unfold gc_words; discriminate|apply gc_words_free; assumption].
+  unfold gc_words. cbn [app]. rewrite parse_N_dec.
+  destruct (gc_vols g) as [|z l] eqn:E.
+  - simpl in Hc. rewrite Hc. simpl. destruct g; simpl in *; subst; reflexivity.
+  - rewrite <- E in *. assert (Hz : (gc_count g =? 0)%N = false) by (rewrite Hc, E; reflexivity).
+    rewrite Hz, Hc, Nat2N.id.
+    pose proof (take_with_app parse_Z dec_Z (gc_vols g) [] parse_Z_dec) as Ht. rewrite app_nil_r in Ht.
+    rewrite Ht. destruct g; simpl in *; subst; reflexivity.
+Qed.
+
+Lemma print_gc_not_end g : String.eqb (print_gc g) "END_GEOMCOMP" = false.
+Proof.
+  destruct (String.eqb (print_gc g) "END_GEOMCOMP") eqn:E; [|reflexivity].
+  apply String.eqb_eq in E. exfalso.
+  assert (H : contains_char " " (print_gc g) = true).
+  { unfold print_gc, gc_words. cbn [app]. rewrite join_cons2, contains_app.
+    apply orb_true_iff. right. reflexivity. }
+  rewrite E in H. discriminate.
+Qed.
+
+Lemma read_gcs_print gs rest :
+  Forall printable_gc gs -> read_gcs (map print_gc gs ++ "END_GEOMCOMP" :: rest) = Some (gs, rest).
+Proof.
+  induction gs as [|g r IH]; intros H; [reflexivity|].
+  inversion H as [|? ? Hg Hr]; subst. cbn [map app read_gcs].
+  rewrite print_gc_not_end, read_gc_print by assumption. rewrite IH by assumption. reflexivity.
+Qed.
+
+Lemma parse_geomcomp_print gs rest :
+  Forall printable_gc gs -> parse_geomcomp (print_geomcomp gs ++ rest) = Some (Some gs, rest).
+Proof.
+  intros H. unfold parse_geomcomp, print_geomcomp. cbn [app starts_block]. simpl String.eqb. cbn [andb].
+  rewrite <- app_assoc. cbn [app]. rewrite read_gcs_print by assumption. reflexivity.
+Qed.
+
+(* ---- BOUNDARY_CONDITION ------------------------------------------------------------------------ *)
+Lemma read_bc_print p : tok2 (fst p) -> read_bc (join " " ["ALL_COMPLETE"; fst p; dec_Z (snd p)]) = Some p.
+Proof.
+  intros [Hk _]. unfold read_bc. facts blank_facts. rewrite words_join.
+  - rewrite String.eqb_refl, parse_Z_dec. destruct p; reflexivity.
+  - discriminate.
+  - repeat constructor; try assumption. apply dec_Z_free; assumption.
+Qed.
+
+Lemma parse_bc_print b rest :
+  fst b = N.of_nat (List.length (snd b)) -> Forall (fun p => tok2 (fst p)) (snd b) ->
+  parse_bc (print_bc b ++ rest) = Some (Some b, rest).
+Proof.
+  intros Hc Hk. unfold parse_bc, print_bc. cbn [app starts_block]. simpl String.eqb. cbn [andb].
+  rewrite parse_N_dec, Hc, Nat2N.id, <- app_assoc.
+  assert (Ht : forall l, Forall (fun p => tok2 (fst p)) l -> forall tl,
+            take_with read_bc (List.length l)
+              (map (fun p => join " " ["ALL_COMPLETE"; fst p; dec_Z (snd p)]) l ++ tl) = Some (l, tl)).
+  { induction l as [|p r IH]; intros H tl; [reflexivity|].
+    inversion H as [|? ? Hp Hr]; subst. cbn [List.length map app take_with].
+    rewrite read_bc_print by assumption. rewrite IH by assumption. reflexivity. }
+  rewrite Ht by assumption. cbn [app]. simpl String.eqb. destruct b; simpl in *; subst; reflexivity.
+Qed.
+
+(* ---- the file -------------------------------------------------------------------------------------- *)
+Lemma parse_comps_skip ls :
+  (forall r, ls <> "" :: "COMPOSITION" :: r) ->
+  (ls = [] \/ exists h r, ls = "" :: h :: r /\ String.eqb h "COMPOSITION" = false) ->
+  parse_comps ls = Some (None, ls).
+Proof.
+  intros _ [->|[h [r [-> Hh]]]]; [reflexivity|]. unfold parse_comps, starts_block.
+  simpl String.eqb at 1. cbn [andb]. rewrite Hh. reflexivity.
+Qed.
+
+Theorem parse_lines_print f : printable f -> parse_lines (print_file f) = Some f.
+Proof.
+  intros [Hs Hv Hc Hg Hb]. unfold parse_lines, print_file.
+  change (strip_lines geometry_head (geometry_head ++ ?x)) with (strip_lines geometry_head (geometry_head ++ x)).
+  assert (Hstrip : forall x, strip_lines geometry_head (geometry_head ++ x) = Some x) by (intros x; reflexivity).
+  rewrite Hstrip. cbn [app]. rewrite parse_surfs_print by assumption.
+  rewrite parse_vols_print by assumption. simpl String.eqb at 1.
+  destruct f as [sl vl comps gc bc]. cbn [f_comps f_geomcomp f_bc f_surfs f_vols opt_lines] in *.
+  destruct comps as [c|]; cbn [opt_lines app].
+  - destruct Hc as [Hc1 Hc2]. rewrite parse_comps_print by assumption.
+    destruct gc as [g|]; cbn [opt_lines].
+    + rewrite parse_geomcomp_print by assumption.
+      destruct bc as [b|]; cbn [opt_lines].
+      * destruct Hb as [Hb1 Hb2]. pose proof (parse_bc_print b [] Hb1 Hb2) as P. rewrite app_nil_r in P.
+        rewrite P. reflexivity.
+      * reflexivity.
+    + cbn [app]. destruct bc as [b|]; cbn [opt_lines app].
+      * destruct Hb as [Hb1 Hb2]. pose proof (parse_bc_print b [] Hb1 Hb2) as P. rewrite app_nil_r in P.
+        assert (Hgc : parse_geomcomp (print_bc b) = Some (None, print_bc b)) by reflexivity.
+        rewrite Hgc, P. reflexivity.
+      * reflexivity.
+  - destruct gc as [g|]; cbn [opt_lines].
+    + assert (Hcs : forall x, parse_comps (print_geomcomp g ++ x) = Some (None, print_geomcomp g ++ x)) by (intros; reflexivity).
+      rewrite Hcs, parse_geomcomp_print by assumption.
+      destruct bc as [b|]; cbn [opt_lines].
+      * destruct Hb as [Hb1 Hb2]. pose proof (parse_bc_print b [] Hb1 Hb2) as P. rewrite app_nil_r in P.
+        rewrite P. reflexivity.
+      * reflexivity.
+    + destruct bc as [b|]; cbn [opt_lines app].
+      * destruct Hb as [Hb1 Hb2]. pose proof (parse_bc_print b [] Hb1 Hb2) as P. rewrite app_nil_r in P.
+        assert (Hcs : parse_comps (print_bc b) = Some (None, print_bc b)) by reflexivity.
+        assert (Hgc : parse_geomcomp (print_bc b) = Some (None, print_bc b)) by reflexivity.
+        rewrite Hcs, Hgc, P. reflexivity.
+      * reflexivity.
+Qed.
+
+(* ---- no printed line contains a newline ----------------------------------------------------------- *)
+Lemma words_line_free ws : Forall (free nlc) ws -> free nlc (join " " ws).
+Proof. intros H. apply (free_join nlc " "); [reflexivity|assumption]. Qed.
+
+Lemma print_file_lines_free f : printable f -> Forall (free nlc) (print_file f).
+Proof.
+  intros [Hs Hv Hc Hg Hb]. facts nl_facts. unfold print_file.
+  repeat (apply Forall_app; split).
+  - repeat constructor.
+  - apply Forall_forall. intros l Hl. apply in_flat_map in Hl. destruct Hl as [s [Hin Hl]].
+    rewrite Forall_forall in Hs. specialize (Hs s Hin). unfold print_surf in Hl.
+    apply in_app_or in Hl. destruct Hl as [Hl|[<-|[]]].
+    + pose proof (ps_transform s Hs) as Pt. destruct (sl_transform s) as [t|]; [|destruct Hl].
+      destruct Hl as [<-|[]]. apply words_line_free.
+      constructor; [reflexivity|]. constructor; [apply dec_Z_free; assumption|]. constructor; [reflexivity|].
+      apply Forall_forall. intros w Hw. rewrite Forall_forall in Pt. apply (Pt w Hw).
+    + apply code_line_free; [apply (tok3_lists s Hs)|apply (ps_comment s Hs)].
+  - repeat constructor.
+  - apply Forall_forall. intros l Hl. apply in_map_iff in Hl. destruct Hl as [v [<- Hin]].
+    rewrite Forall_forall in Hv. unfold print_volu.
+    apply code_line_free; [apply volu_line_words_free; assumption|apply (pv_comment v (Hv v Hin))].
+  - repeat constructor.
+  - destruct (f_comps f) as [c|]; [|constructor]. destruct Hc as [_ Hc]. cbn [opt_lines]. unfold print_comps.
+    repeat (apply Forall_app; split).
+    + constructor; [reflexivity|]. constructor; [reflexivity|]. constructor; [apply dec_free; assumption|constructor].
+    + apply Forall_forall. intros l Hl. apply in_flat_map in Hl. destruct Hl as [b [Hin Hl]].
+      rewrite Forall_forall in Hc. destruct (Hc b Hin) as [[_ T] [_ Nm] Hd Hi _]. unfold print_comp in Hl.
+      destruct Hl as [<-|Hl].
+      * apply words_line_free. unfold comp_head_words. destruct (cb_density b) as [[d nb]|].
+        -- destruct Hd as [_ Hd]. repeat constructor; try assumption; try (apply dec_free; assumption).
+           destruct nb; reflexivity.
+        -- repeat constructor; try assumption. apply dec_free; assumption.
+      * destruct (cb_items b) as [|it its] eqn:Ei.
+        -- destruct Hl as [<-|[]]. reflexivity.
+        -- rewrite <- Ei in *. apply in_map_iff in Hl. destruct Hl as [p [<- Hp]].
+           rewrite Forall_forall in Hi. destruct (Hi p Hp) as [[_ A] [_ B]].
+           apply words_line_free. repeat constructor; assumption.
+    + repeat constructor.
+  - destruct (f_geomcomp f) as [g|]; [|constructor]. cbn [opt_lines]. unfold print_geomcomp.
+    repeat (apply Forall_app; split).
+    + repeat constructor.
+    + apply Forall_forall. intros l Hl. apply in_map_iff in Hl. destruct Hl as [x [<- Hin]].
+      rewrite Forall_forall in Hg. destruct (Hg x Hin) as [[_ Nm] _].
+      apply words_line_free. apply gc_words_free; assumption.
+    + repeat constructor.
+  - destruct (f_bc f) as [b|]; [|constructor]. destruct Hb as [_ Hb]. cbn [opt_lines]. unfold print_bc.
+    repeat (apply Forall_app; split).
+    + constructor; [reflexivity|]. constructor; [reflexivity|]. constructor; [apply dec_free; assumption|constructor].
+    + apply Forall_forall. intros l Hl. apply in_map_iff in Hl. destruct Hl as [p [<- Hin]].
+      rewrite Forall_forall in Hb. destruct (Hb p Hin) as [_ K].
+      apply words_line_free. constructor; [reflexivity|]. constructor; [assumption|].
+      constructor; [apply dec_Z_free; assumption|constructor].
+    + repeat constructor.
+Qed.
+
+(* ---- the round trip, character level, all blocks -------------------------------------------------- *)
+Theorem parse_print_roundtrip f : printable f -> parse_t4 (print_t4 f) = Some f.
+Proof.
+  intros Hf. unfold parse_t4, print_t4.
+  rewrite lines_of_unlines by (apply print_file_lines_free; assumption).
+  apply parse_lines_print. assumption.
+Qed.
